@@ -35,6 +35,18 @@ fn main() {
                 i += 1;
                 worker = args.get(i).and_then(|s| s.parse().ok());
             }
+            "--run-item" => {
+                i += 1;
+                let idx: u64 = args.get(i).and_then(|s| s.parse().ok()).unwrap_or(0);
+                let check = props::all().into_iter().find(|c| c.id() == id).expect("property");
+                if let Some(b) = check.rlimit_as() {
+                    verif_harness::infra::set_rlimit_as(b);
+                }
+                let mut acc = verif_harness::infra::Acc::default();
+                check.run_item(idx, tier, &mut acc);
+                println!("{}", acc.to_json());
+                return;
+            }
             "--replay" => {
                 i += 1;
                 replay = args.get(i).cloned();
